@@ -3,6 +3,47 @@ import argparse, importlib, os, sys, traceback
 from . import facts, report
 from .compdb import AnalysisBroken
 
+def thorough(chk, prop):
+    """thorough tier = the quick rules (already run on /repo) + (a) the same rules under the DEBUG=1 preprocessor
+    configuration, (b) every positive control of the property: hand-written mutants, behaviour-preserving edits that must
+    stay silent, and the seeded changes of independent sub-agents, each applied to a scratch copy under /tmp that is
+    removed immediately.  A control that is not detected makes the run ANALYSIS-BROKEN (exit 2): the checker lost power."""
+    import importlib, json, glob
+    from . import selftest
+    broken = []
+    # (a) second preprocessor configuration
+    try:
+        prog2 = facts.load_program(defines=("DEBUG=1",), tag="debug")
+        sub = report.Check(prop, "thorough", chk.level)
+        importlib.import_module("sa.rules." + prop).run(sub, prog2)
+        bad = [i for i in sub.instances if not i["ok"]]
+        known = json.load(open(report.KNOWN)).get("findings", []) if os.path.exists(report.KNOWN) else []
+        kk = {k_["key"] for k_ in known}
+        new = [i for i in bad if i["key"] not in kk]
+        chk.controls.append({"kind": "config", "config": "DEBUG=1", "instances": len(sub.instances), "violations_not_known": len(new)})
+        for i in new:
+            chk.fail(i["rule"], i["site"], "[DEBUG=1 configuration] " + i["what"], i["key"].split(":", 2)[2] + ":DEBUG")
+    except AnalysisBroken as e:
+        chk.controls.append({"kind": "config", "config": "DEBUG=1", "error": str(e)})
+        broken.append("config DEBUG=1: %s" % e)
+    # (b) mutants and benign edits
+    for r in selftest.run_for(prop):
+        chk.controls.append({"kind": "benign-edit" if r["name"].startswith("benign") else "mutant", "name": r["name"], "outcome": r["outcome"]})
+        if r["outcome"] not in ("detected", "mutant-broken"):
+            broken.append(r["name"])
+    # (c) seeded changes from independent sub-agents
+    for meta in sorted(glob.glob(os.path.join(selftest.VERIF, "seeded", "*", "meta.json"))):
+        m = json.load(open(meta))
+        if m.get("property") != prop and prop not in m.get("detected_by_properties", []):
+            continue
+        d = os.path.dirname(meta)
+        r = selftest.run_mutant({"name": "seed:" + os.path.basename(d), "property": prop, "patch": os.path.relpath(os.path.join(d, "patch.diff"), selftest.VERIF), "expect": ""})
+        chk.controls.append({"kind": "seeded-change", "name": os.path.basename(d), "outcome": r["outcome"]})
+        if r["outcome"] not in ("detected", "mutant-broken"):
+            broken.append("seed:" + os.path.basename(d))
+    return broken
+
+
 def main():
     ap = argparse.ArgumentParser()
     ap.add_argument("prop")
@@ -19,9 +60,13 @@ def main():
         prog = facts.load_program()
         chk.units = list(prog.units)
         mod.run(chk, prog)
-        if tier == "thorough" and hasattr(mod, "thorough"):
-            mod.thorough(chk, prog)
+        broken = []
+        if tier == "thorough":
+            broken = thorough(chk, a.prop)
         rc = chk.finish()
+        if rc == 0 and broken:
+            print("ANALYSIS-BROKEN property=%s positive controls not detected: %s" % (a.prop, broken))
+            sys.exit(2)
     except AnalysisBroken as e:
         print("ANALYSIS-BROKEN property=%s %s" % (a.prop, e))
         sys.exit(2)
